@@ -9,3 +9,46 @@ Record settings := mkSettings {
   s_claimable : bool;       (* CLAIMABLE *)
   s_guaranteed : bool       (* GUARANTEED_ALLOCATED *)
 }.
+
+(* ---------------------------------------------------------------- run-time checks of the conversions
+   (RawBump::ensure_satisfies_settings / ensure_scope_satisfies_settings; the borrow variants have
+   compile-time checks only).  MODEL of the decision; the effect on the position of a conversion
+   that does not panic is the entry of an aligned region (Arena.OAlignPush). *)
+Inductive astate := AUnallocated | AAllocated | AClaimed.
+Inductive conv := ByValue | ScopeByValue | Borrow | BorrowMut.
+
+Definition conversion_panics (k : conv) (news : settings) (st : astate) : bool :=
+  match k with
+  | ByValue =>
+    (negb (s_claimable news) && match st with AClaimed => true | _ => false end)
+    || (s_guaranteed news && match st with AUnallocated => true | _ => false end)
+  | ScopeByValue => negb (s_claimable news) && match st with AClaimed => true | _ => false end
+  | Borrow | BorrowMut => false
+  end.
+
+(* what the target type requires of the arena *)
+Definition requires_unclaimed (news : settings) : bool := negb (s_claimable news).
+Definition requires_allocated (news : settings) : bool := s_guaranteed news.
+
+(* C18: a by-value conversion panics exactly when a requirement of the target type is not met *)
+Theorem by_value_conversion_panics_iff news st :
+  conversion_panics ByValue news st = true <->
+  (requires_unclaimed news = true /\ st = AClaimed) \/ (requires_allocated news = true /\ st = AUnallocated).
+Proof.
+  unfold conversion_panics, requires_unclaimed, requires_allocated.
+  destruct (s_claimable news), (s_guaranteed news), st; cbn; split; intros H;
+    try discriminate; try reflexivity; try (left; split; reflexivity); try (right; split; reflexivity);
+    destruct H as [[H1 H2]|[H1 H2]]; discriminate.
+Qed.
+
+(* a scope held by value is never unallocated: only the claim matters *)
+Theorem scope_conversion_panics_iff news st :
+  conversion_panics ScopeByValue news st = true <-> (requires_unclaimed news = true /\ st = AClaimed).
+Proof.
+  unfold conversion_panics, requires_unclaimed.
+  destruct (s_claimable news), st; cbn; split; intros H; try discriminate; try (split; reflexivity); destruct H; discriminate.
+Qed.
+
+Theorem borrow_conversions_never_panic news st :
+  conversion_panics Borrow news st = false /\ conversion_panics BorrowMut news st = false.
+Proof. split; reflexivity. Qed.
